@@ -1606,6 +1606,25 @@ func init() {
 	}
 }
 
+func init() {
+	// The standard named curves: constructing them runs big-number code that
+	// is out of reach (assembly kernels).  Without a harness model each is an
+	// opaque object with a stable identity per run (curve arithmetic on it is
+	// not modelled: methods are no-ops, as for other opaque values).
+	for _, n := range []string{"P224", "P256", "P384", "P521"} {
+		name := "crypto/elliptic." + n
+		intrinsics[name] = func(fr *frame, args []value) value {
+			if v, ok := fr.r.curves[name]; ok {
+				return v
+			}
+			v := iface{t: opaqueIfaceType, v: &opaque{tag: "curve:" + name}}
+			fr.r.curves[name] = v
+			fr.r.note("%s() is an opaque curve object (no harness model given)", name)
+			return v
+		}
+	}
+}
+
 // notIntrinsic: returned by an intrinsic that declines (the call proceeds as
 // if there were no intrinsic)
 var notIntrinsic value = &opaque{tag: "not-intrinsic"}
